@@ -8,12 +8,14 @@
    absolute / absolute_moveto / relative (exact, for paths without 1e-9 near misses of the subpath
    start: the code snaps those), move, the target forms, and the rounding bound.  Not proved here
    (correspondence + spec judge on every run): subpaths() splitting, the arcs_to_cubics step of
-   as_cmd_seq (its numerics are C12's theorems) and the basic-shape outlines.  When a 1e-9 snap does fire
+   as_cmd_seq (its numerics are C12's theorems).  The basic shapes: rect / ellipse / circle / line are proved, of the
+   as_path bodies, __post_init__ and builder methods REGENERATED from svg_types.py (gen/G_shapes.v), to interpret to exactly the
+   outlines of SVG 1.1 chapter 9; polygon / polyline (any number of points) of the hand model tied by correspondence.  When a 1e-9 snap does fire
    the moved segment is proved to end exactly on the subpath start with its other arguments untouched
    (so the drift is the <= 1e-9 the snap condition itself states); that the curve of a snapped path stays
    within 1e-8 of the original is judged on near-closing inputs on every run. *)
 From Coq Require Import ZArith Reals Lra List Bool Ascii String.
-From Pico Require Import Num PyStr G_geom G_meta G_types Walk PathSem E3_walk E3_rewrites E3_shorthand E3_forms E3_chain E3_snap G_transform E1_affine.
+From Pico Require Import Num PyStr G_geom G_meta G_types Walk PathSem E3_walk E3_rewrites E3_shorthand E3_forms E3_chain E3_snap G_transform E1_affine G_shapes BasicShapes E3_shapes.
 Import ListNotations.
 Local Open Scope char_scope.
 
@@ -97,6 +99,81 @@ Theorem C09_rounding (nd : Z) (p : pathR) :
           p (round_path (N:=ROps) nd p).
 Proof. exact (round_path_close nd p). Qed.
 
+(* ---- basic shapes: SVG 1.1 chapter 9 outlines, of the regenerated as_path bodies ---- *)
+Local Open Scope R_scope.
+(* every builder method of SVGPath writes the command it is named after (table regenerated from the source) *)
+Theorem C09_builder_writes_its_letter (c : ascii) : builder_letter c = c.
+Proof. exact (builder_letter_id c). Qed.
+
+Theorem C09_line (x1 y1 x2 y2 : R) :
+  interpR (SVGLine_as_path ROps x1 y1 x2 y2) = [SegMove (mk_Point ROps x1 y1); SegLine (mk_Point ROps x1 y1) (mk_Point ROps x2 y2)].
+Proof. exact (line_outline x1 y1 x2 y2). Qed.
+
+Theorem C09_ellipse (rx ry cx cy : R) :
+  interpR (SVGEllipse_as_path ROps rx ry cx cy) =
+  [SegMove (mk_Point ROps (cx + rx) cy);
+   SegArc (mk_Point ROps (cx + rx) cy) rx ry 0 1 1 (mk_Point ROps (cx - rx) cy);
+   SegArc (mk_Point ROps (cx - rx) cy) rx ry 0 1 1 (mk_Point ROps (cx + rx) cy);
+   SegClose (mk_Point ROps (cx + rx) cy) (mk_Point ROps (cx + rx) cy)]%R.
+Proof. exact (ellipse_outline rx ry cx cy). Qed.
+
+Theorem C09_ellipse_halves (rx ry cx cy : R) :
+  rx <> 0%R -> ry <> 0%R ->
+  on_ellipse cx cy rx ry (mk_Point ROps (cx + rx) cy) /\ on_ellipse cx cy rx ry (mk_Point ROps (cx - rx) cy) /\
+  (((cx + rx) + (cx - rx)) / 2 = cx)%R /\ ((cy + cy) / 2 = cy)%R.
+Proof. exact (ellipse_arc_ends rx ry cx cy). Qed.
+
+Theorem C09_circle (r cx cy : R) :
+  interpR (SVGCircle_as_path ROps r cx cy) = interpR (SVGEllipse_as_path ROps r r cx cy).
+Proof. exact (circle_outline r cx cy). Qed.
+
+Theorem C09_rect_radii (x y w h rx ry : R) :
+  SVGRect_post_init ROps x y w h rx ry =
+  [x; y; w; h;
+   Rmin (if Reqb rx 0 then ry else rx) (w / 2);
+   Rmin (if Reqb ry 0 then (if Reqb rx 0 then ry else rx) else ry) (h / 2)]%R.
+Proof. exact (rect_radii x y w h rx ry). Qed.
+
+Theorem C09_rect_sharp (x y w h : R) :
+  interpR (SVGRect_as_path ROps x y w h 0 0) =
+  [SegMove (mk_Point ROps (x + 0) y);
+   SegLine (mk_Point ROps (x + 0) y) (mk_Point ROps (x + w - 0) y);
+   SegLine (mk_Point ROps (x + w - 0) y) (mk_Point ROps (x + w - 0) (y + h - 0));
+   SegLine (mk_Point ROps (x + w - 0) (y + h - 0)) (mk_Point ROps (x + 0) (y + h - 0));
+   SegLine (mk_Point ROps (x + 0) (y + h - 0)) (mk_Point ROps (x + 0) (y + 0));
+   SegClose (mk_Point ROps (x + 0) (y + 0)) (mk_Point ROps (x + 0) y)]%R.
+Proof. exact (rect_outline_sharp x y w h). Qed.
+
+Theorem C09_rect_rounded (x y w h rx ry : R) :
+  (0 < rx)%R ->
+  interpR (SVGRect_as_path ROps x y w h rx ry) =
+  [SegMove (mk_Point ROps (x + rx) y);
+   SegLine (mk_Point ROps (x + rx) y) (mk_Point ROps (x + w - rx) y);
+   SegArc (mk_Point ROps (x + w - rx) y) rx ry 0 0 1 (mk_Point ROps (x + w) (y + ry));
+   SegLine (mk_Point ROps (x + w) (y + ry)) (mk_Point ROps (x + w) (y + h - ry));
+   SegArc (mk_Point ROps (x + w) (y + h - ry)) rx ry 0 0 1 (mk_Point ROps (x + w - rx) (y + h));
+   SegLine (mk_Point ROps (x + w - rx) (y + h)) (mk_Point ROps (x + rx) (y + h));
+   SegArc (mk_Point ROps (x + rx) (y + h)) rx ry 0 0 1 (mk_Point ROps x (y + h - ry));
+   SegLine (mk_Point ROps x (y + h - ry)) (mk_Point ROps x (y + ry));
+   SegArc (mk_Point ROps x (y + ry)) rx ry 0 0 1 (mk_Point ROps (x + rx) y);
+   SegClose (mk_Point ROps (x + rx) y) (mk_Point ROps (x + rx) y)]%R.
+Proof. exact (rect_outline_rounded x y w h rx ry). Qed.
+
+Theorem C09_rect_corner (x y w rx ry : R) :
+  rx <> 0%R -> ry <> 0%R ->
+  on_ellipse (x + w - rx) (y + ry) rx ry (mk_Point ROps (x + w - rx) y) /\
+  on_ellipse (x + w - rx) (y + ry) rx ry (mk_Point ROps (x + w) (y + ry)).
+Proof. exact (rect_corner_on_ellipse x y w rx ry). Qed.
+
+Theorem C09_polyline (x y : R) (r : list (R * R)) :
+  interpR (polyline_cmds (N:=ROps) ((x, y) :: r)) = SegMove (mk_Point ROps x y) :: chain (mk_Point ROps x y) r.
+Proof. exact (polyline_outline x y r). Qed.
+
+Theorem C09_polygon (x y : R) (r : list (R * R)) :
+  interpR (polygon_cmds (N:=ROps) ((x, y) :: r)) =
+  SegMove (mk_Point ROps x y) :: chain (mk_Point ROps x y) r ++ [SegClose (last_pt (mk_Point ROps x y) r) (mk_Point ROps x y)].
+Proof. exact (polygon_outline x y r). Qed.
+
 (* non-vacuity: a concrete path with relative commands, a shorthand after a curve of the other
    family and a closepath followed by drawing is well formed *)
 Example C09_nonvacuous :
@@ -106,5 +183,7 @@ Proof. repeat constructor; cbn; tauto. Qed.
 (* one traversal for the axioms of the whole property file *)
 Definition C09_all := (C09_walk_tracks_current_point, C09_explicit_lines, C09_expand_shorthand, C09_absolute,
   C09_absolute_moveto, C09_relative, C09_move, C09_no_lowercase_after_absolute, C09_no_HV_after_explicit_lines,
-  C09_no_ST_after_expand_shorthand, C09_as_cmd_seq, C09_snapped_segment_ends_on_start, C09_rewrite_snap_lands, C09_snap_changes_only_the_end_point, C09_rounding).
+  C09_no_ST_after_expand_shorthand, C09_as_cmd_seq, C09_snapped_segment_ends_on_start, C09_rewrite_snap_lands, C09_snap_changes_only_the_end_point, C09_rounding,
+  C09_builder_writes_its_letter, C09_line, C09_ellipse, C09_ellipse_halves, C09_circle, C09_rect_radii, C09_rect_sharp, C09_rect_rounded,
+  C09_rect_corner, C09_polyline, C09_polygon).
 Print Assumptions C09_all.
